@@ -75,6 +75,22 @@ def supportsOK (ts : List T) (r : T) : Bool :=
 def lengthsOK (ts : List T) (r : T) : Bool :=
   r.usplitsAll.all fun u => approx u.len (meanLen ts u.side)
 
+/-- the split has a length in every tree that contains it -/
+def lenDefined (ts : List T) (s : List String) : Bool :=
+  ts.all fun t => (t.usplitsAll.filter (·.side == s)).all (·.len != NIL)
+
+/-- the length clause split by split: every branch of the consensus whose split has a length in
+    every tree containing it carries the mean (`lengthsOK` demands it of every branch; the two
+    coincide when no input length is absent) -/
+def lengthsOKWhereDefined (ts : List T) (r : T) : Bool :=
+  r.usplitsAll.all fun u => !(lenDefined ts u.side) || approx u.len (meanLen ts u.side)
+
+/-- the selection with an explicit count cut `m` instead of the threshold: count > m or in every
+    tree (used to describe the float64-product defect: `m = int(c*float64(n))`) -/
+def expectedSplitsCut (ts : List T) (m : Nat) : List (List String) :=
+  canonSet ((allSides ts).filter fun s =>
+    (decide (m < count ts s) || count ts s == ts.length) && decide (2 ≤ lightSize (taxa ts) s))
+
 def inRange (c : Rat) : Bool := decide (1/2 ≤ c) && decide (c ≤ 1)
 
 /-- outcome the property demands: `some true` = must succeed, `some false` = must
